@@ -211,7 +211,11 @@ pub fn make_plan_opt<M: ZooMsg + ?Sized>(d: &mut Decider, stats: &mut Stats, nsp
                         if n < top {
                             stats[P::value_clamped_to_fit as usize] += 1;
                         }
-                        chosen = Some((MsgPlan { expect_val: back, ..mp }, size));
+                        // the value the application asked for is the reference (a read-back that
+                        // differs from it shows up as `0-requested-value` in the delivery oracle)
+                        let _ = back;
+                        let want = mp.val.clone();
+                        chosen = Some((MsgPlan { expect_val: want, ..mp }, size));
                         break;
                     }
                     Ok(Ok((size, false, _))) => {
